@@ -213,31 +213,41 @@ Variable shp : bool -> list N -> option spec_host.
 Variable shs : spec_host -> list N.
 
 (* ---------- specification side ---------- *)
+(* no base, or a base whose scheme is not the scheme of the input: the base is never consulted *)
+Theorem spec_special_any base input sch R :
+  spec_scheme (spec_clean input) = Some (sch, R) -> is_special_scheme sch = true -> list_eqb sch str_file = false ->
+  match base with Some b => list_eqb (su_scheme b) sch | None => false end = false ->
+  match sauth_s shp sch (drop_sl R) with
+  | Some su => spec_basic_url_parse shp input base = BDone su
+  | None => exists uf, spec_basic_url_parse shp input base = BFailure uf
+  end.
+Proof.
+  intros Hs Hspe Hnf Hb. set (inp := spec_clean input) in *.
+  destruct (runs_scheme shp inp base sch R BOutOfFuel Hs) as (pre & Hin & _).
+  assert (inp = ((pre ++ [58]) ++ take_sl R) ++ drop_sl R) as Hin2.
+  { rewrite <- app_assoc, take_drop_sl, Hin, <- app_assoc. reflexivity. }
+  assert (inp = (pre ++ [58]) ++ R) as Hin1 by (rewrite Hin, <- app_assoc; reflexivity).
+  pose proof (runs_authority_s shp inp base _ (drop_sl R) sch Hin2 Hspe Hnf) as RA.
+  assert (forall res, Runs shp inp base (at_pos StAuthority ((pre ++ [58]) ++ take_sl R) [] false false false
+                                                 (set_scheme empty_url sch)) res ->
+                      spec_basic_url_parse shp input base = res) as Hrun.
+  { intros res HR. apply spec_parse_of_runs. fold inp.
+    destruct (runs_scheme shp inp base sch R res Hs) as (pre2 & Hin' & K). apply K. clear K.
+    assert (pre2 = pre) as -> by (rewrite Hin in Hin'; apply app_inv_tail in Hin'; symmetry; exact Hin').
+    apply (runs_scheme_colon_special shp inp base pre sch R res Hin Hspe Hnf Hb).
+    apply (runs_special_slashes shp inp base R (pre ++ [58]) false false false _ res Hin1). exact HR. }
+  destruct (sauth_s shp sch (drop_sl R)) as [su|]; cbn [out_is] in RA.
+  - apply Hrun. exact RA.
+  - destruct RA as [uf K]. exists uf. apply Hrun. exact K.
+Qed.
+
 Theorem spec_special input sch R :
   spec_scheme (spec_clean input) = Some (sch, R) -> is_special_scheme sch = true -> list_eqb sch str_file = false ->
   match sauth_s shp sch (drop_sl R) with
   | Some su => spec_basic_url_parse shp input None = BDone su
   | None => exists uf, spec_basic_url_parse shp input None = BFailure uf
   end.
-Proof.
-  intros Hs Hspe Hnf. set (inp := spec_clean input) in *.
-  destruct (runs_scheme shp inp None sch R BOutOfFuel Hs) as (pre & Hin & _).
-  assert (inp = ((pre ++ [58]) ++ take_sl R) ++ drop_sl R) as Hin2.
-  { rewrite <- app_assoc, take_drop_sl, Hin, <- app_assoc. reflexivity. }
-  assert (inp = (pre ++ [58]) ++ R) as Hin1 by (rewrite Hin, <- app_assoc; reflexivity).
-  pose proof (runs_authority_s shp inp _ (drop_sl R) sch Hin2 Hspe Hnf) as RA.
-  assert (forall res, Runs shp inp None (at_pos StAuthority ((pre ++ [58]) ++ take_sl R) [] false false false
-                                                 (set_scheme empty_url sch)) res ->
-                      spec_basic_url_parse shp input None = res) as Hrun.
-  { intros res HR. apply spec_parse_of_runs. fold inp.
-    destruct (runs_scheme shp inp None sch R res Hs) as (pre2 & Hin' & K). apply K. clear K.
-    assert (pre2 = pre) as -> by (rewrite Hin in Hin'; apply app_inv_tail in Hin'; symmetry; exact Hin').
-    apply (runs_scheme_colon_special shp inp pre sch R res Hin Hspe Hnf).
-    apply (runs_special_slashes shp inp R (pre ++ [58]) false false false _ res Hin1). exact HR. }
-  destruct (sauth_s shp sch (drop_sl R)) as [su|]; cbn [out_is] in RA.
-  - apply Hrun. exact RA.
-  - destruct RA as [uf K]. exists uf. apply Hrun. exact K.
-Qed.
+Proof. intros Hs Hspe Hnf. exact (spec_special_any None input sch R Hs Hspe Hnf eq_refl). Qed.
 
 (* ---------- the class theorem ---------- *)
 Theorem class_special input : usv_list input -> in_class_special input = true ->
